@@ -92,6 +92,22 @@ func bigOf(s string) *big.Int {
 	return v
 }
 
+// srcOf: the source of WriteBitString / Append: the bits, optionally ("bits:k") with k of them already read
+// (Skip(k)) — the source's read cursor must not matter.
+func srcOf(f []string) boc.BitString {
+	b := bsOf(f[1])
+	if len(f) > 2 {
+		k := atoi(f[2])
+		if err := b.Skip(k); err != nil {
+			panic("srcOf: skip")
+		}
+		if k > 0 {
+			b.PickUint(1) // a peek leaves the cursor where it is
+		}
+	}
+	return b
+}
+
 // bsOf builds the canonical bit string holding the given bits: NewBitString(len) + WriteBit.
 func bsOf(bin string) boc.BitString {
 	b := boc.NewBitString(len(bin))
@@ -201,7 +217,13 @@ func applyItem(t bitIO, tok string) (out string) {
 	case "wy":
 		return res("", t.WriteBytes(h.MustUnHex(f[1])))
 	case "ws":
-		return res("", t.WriteBitString(bsOf(f[1])))
+		src := srcOf(f)
+		before := src.BitsAvailableForRead()
+		r := res("", t.WriteBitString(src))
+		if src.BitsAvailableForRead() != before {
+			return "src-moved"
+		}
+		return r
 	case "wU":
 		return res("", t.WriteBigUint(bigOf(f[1]), atoi(f[2])))
 	case "wI":
@@ -279,7 +301,7 @@ func applyItem(t bitIO, tok string) (out string) {
 			bs.Grow(atoi(f[1]))
 			return "ok"
 		case "ap":
-			bs.Append(bsOf(f[1]))
+			bs.Append(srcOf(f))
 			return "ok"
 		case "cp":
 			*bs = bs.Copy()
@@ -597,7 +619,7 @@ func goWriteRead(a []string) string {
 		case "l":
 			err = bs.WriteLimUint(atoi(f[1]), atoi(f[2]))
 		case "s":
-			err = bs.WriteBitString(bsOf(f[1]))
+			err = bs.WriteBitString(srcOf(f))
 		default:
 			return "bad-op"
 		}
@@ -1333,7 +1355,11 @@ func (q *seqGen) step() {
 			if !q.cell && g.Rng.Intn(3) == 0 {
 				tok = "wa:"
 			}
-			q.write(n, tok+randBits(g, n))
+			bitsS := randBits(g, n)
+			if tok == "ws:" && n > 0 && g.Rng.Intn(2) == 0 { // a partially (or completely) read source
+				bitsS += fmt.Sprintf(":%d", 1+g.Rng.Intn(n))
+			}
+			q.write(n, tok+bitsS)
 		case k < 15:
 			n := 1 + g.Rng.Intn(257)
 			if g.Rng.Intn(3) == 0 {
@@ -1395,7 +1421,11 @@ func (q *seqGen) step() {
 				q.cap += n
 			case 1:
 				n := g.Rng.Intn(60)
-				q.items = append(q.items, "ap:"+randBits(g, n))
+				apS := randBits(g, n)
+				if n > 0 && g.Rng.Intn(2) == 0 {
+					apS += fmt.Sprintf(":%d", 1+g.Rng.Intn(n))
+				}
+				q.items = append(q.items, "ap:"+apS)
 				if q.ln+n > q.cap {
 					q.cap = q.ln + n
 				}
@@ -1655,7 +1685,11 @@ func genC06(g *h.G) {
 				w := pickWidth(g)
 				return fmt.Sprintf("wi:%d:%d", intOfWidth(g, w), w)
 			case 4:
-				return "ws:" + randBits(g, g.Rng.Intn(40))
+				nb := g.Rng.Intn(40)
+				if nb > 0 && g.Rng.Intn(2) == 0 {
+					return fmt.Sprintf("ws:%s:%d", randBits(g, nb), 1+g.Rng.Intn(nb))
+				}
+				return "ws:" + randBits(g, nb)
 			case 5:
 				return "wy:" + h.Hex(g.Bytes(g.Rng.Intn(5)))
 			case 6, 7:
@@ -1858,6 +1892,9 @@ func genC06(g *h.G) {
 			default:
 				n = g.Rng.Intn(30)
 				tok = "s:" + randBits(g, n)
+				if n > 0 && k%2 == 0 { // every second nested bit string comes from a source that has been read
+					tok += fmt.Sprintf(":%d", 1+g.Rng.Intn(n))
+				}
 			}
 			if total+n > 1023 {
 				break
